@@ -71,7 +71,7 @@ TIES = {
             "connect_valid_graph": ("DswModel.Tie.SwValid", ["tie_connect_valid_graph", "tie_connect_valid_graph_none"]),
             "connect_coding_graph": ("DswModel.Tie.SwCoding", ["tie_connect_coding_graph"]),
         },
-        "extra_modules": ["DswModel.Tie.SwCorollaries", "DswModel.Tie.RepCorollaries"],
+        "extra_modules": ["DswModel.Tie.SwCorollaries", "DswModel.Tie.RepCorollaries", "DswModel.Tie.GraphCorollaries"],
     },
 }
 
